@@ -7,7 +7,7 @@ import itertools
 import numpy as np
 
 
-def vertices(normals, energies, tol=1e-9):
+def vertices(normals, energies, tol=1e-9, dedupe_rel=1e-7):
     n = np.asarray(normals, dtype=float)
     e = np.asarray(energies, dtype=float)
     m = len(n)
@@ -24,7 +24,7 @@ def vertices(normals, energies, tol=1e-9):
     x = np.linalg.solve(A, b[..., None])[..., 0]
     inside = np.all(x @ n.T <= e[None, :] + tol * max(1.0, scale), axis=1)
     x = x[inside]
-    return dedupe(x, 1e-7 * max(1.0, scale))
+    return dedupe(x, dedupe_rel * max(1.0, scale))
 
 
 def dedupe(x, tol):
